@@ -72,6 +72,32 @@ pub fn gen_case(r: &mut Rng, max: usize) -> (Model, Vec<usize>, &'static str) {
         }
         return (m, src, fam);
     }
+    if r.below(12) == 0 {
+        // every settled vertex improves all remaining ones: the lazy heap
+        // fills with superseded entries; zero-weight path arcs make ties
+        let n = r.range(4, max.max(4));
+        let mut m = Model::new(n);
+        let mut ids: Vec<usize> = (0..n).collect();
+        if r.chance(0.5) {
+            r.shuffle(&mut ids);
+        }
+        let zero = *r.pick(&[0.0, 0.15, 0.4]);
+        for i in 0..n {
+            if i + 1 < n {
+                m.add(ids[i], ids[i + 1], if r.chance(zero) { 0 } else { 1 });
+            }
+            for j in (i + 2)..n {
+                if r.chance(0.9) {
+                    m.add(ids[i], ids[j], ((n - i) * n) as i64 + if r.chance(0.2) { 0 } else { r.irange(0, 1) });
+                }
+            }
+        }
+        let mut src = vec![ids[0]];
+        if r.chance(0.15) {
+            src.push(ids[r.range(1, n - 1)]);
+        }
+        return (m, src, "stale_heavy");
+    }
     if r.below(64) == 0 {
         let m = gen::fixture_weighted(r);
         let src = gen::sources(r, m.n());
@@ -111,6 +137,20 @@ pub fn case(idx: u64, seed: u64, p: &Params, o: &mut CaseOut) {
     check_seq(o, "Dijkstra", &seq, &refd, n);
     let seq2: Vec<usize> = Dijkstra::new(&d, src.iter().copied()).take(4 * n + 4).collect();
     o.eq("Dijkstra:collect-vs-for", &seq2, &seq);
+    {
+        // an iterator made by clone / clone_from is a Dijkstra over the same digraph and sources
+        let fresh = Dijkstra::new(&d, src.iter().copied());
+        let other = AdjacencyListWeighted::<usize>::empty(n + 1);
+        let mut c = Dijkstra::new(&other, std::iter::once(n));
+        c.clone_from(&fresh);
+        let via_clone_from: Vec<usize> = c.take(4 * n + 4).collect();
+        o.eq("Dijkstra:clone_from-of-a-fresh-iterator", &via_clone_from, &seq);
+        let via_clone: Vec<usize> = fresh.clone().take(4 * n + 4).collect();
+        o.eq("Dijkstra:clone-of-a-fresh-iterator", &via_clone, &seq);
+        let mut dd = DijkstraDist::new(&other, std::iter::once(n));
+        dd.clone_from(&DijkstraDist::new(&d, src.iter().copied()));
+        o.eq("DijkstraDist:clone_from-of-a-fresh-iterator", &dd.distances(), &want);
+    }
 
     // DijkstraDist item sequence
     let items: Vec<(usize, usize)> = DijkstraDist::new(&d, src.iter().copied()).take(4 * n + 4).collect();
